@@ -111,6 +111,22 @@ func matrixByName(name string) align.SubstitutionMatrix {
 	case "seed":
 		s, _ := strconv.ParseInt(p[1], 10, 64)
 		m = seededMatrix(s, int(f(2)))
+	case "over":
+		// "over:<byte>:m:x:g:o": the symmetric matrix over the two letters 'A' and <byte>
+		v := byte(f(1))
+		m = align.SubstitutionMatrix{}
+		for _, a := range []byte{'A', v} {
+			for _, b := range []byte{'A', v} {
+				if a == b {
+					m[[2]byte{a, b}] = f(2)
+				} else {
+					m[[2]byte{a, b}] = f(3)
+				}
+			}
+			m[[2]byte{a, align.Gap}] = f(4)
+			m[[2]byte{align.Gap, a}] = f(4)
+		}
+		m[[2]byte{align.Gap, align.Gap}] = f(5)
 	case "scaled":
 		// small integer scores times a power of two: every sum stays exact, only the magnitude changes
 		k := math.Ldexp(1, int(f(1)))
